@@ -23,21 +23,28 @@ H = 2e-5  # central-difference step: rounding of the spot (arccos near nadir) ~1
 ID_TOL = 2e-5
 
 
-def make_cfg(alt, limb_frac, cone_deg, az_deg):
-    from nuspacesim.config import NssConfig
-
-    c = NssConfig()
-    c.detector.initial_position.altitude = float(alt)
-    c.detector.initial_position.latitude = 0.3
-    c.detector.initial_position.longitude = 1.0
+def requested(alt, limb_frac, cone_deg, az_deg):
+    """The numbers the user asks for (canonical units). Oracles use these, never values read back
+    from the configuration object (a validator that silently alters a setting must not go unseen)."""
     aH = G.horizon_nadir_angle(G.R_ASTROPY, alt)
     if limb_frac is not None:
-        c.simulation.angle_from_limb = float(limb_frac * aH)
+        limb = float(limb_frac * aH)
     elif np.radians(7) >= aH:
-        c.simulation.angle_from_limb = float(0.5 * aH)
-    c.simulation.max_cherenkov_angle = float(np.radians(cone_deg))
-    c.simulation.max_azimuth_angle = float(np.radians(az_deg))
-    return c
+        limb = float(0.5 * aH)
+    else:
+        limb = float(np.radians(7.0))
+    return {"altitude": float(alt), "angle_from_limb": limb, "max_cherenkov_angle": float(np.radians(cone_deg)), "max_azimuth_angle": float(np.radians(az_deg))}
+
+
+def make_cfg(alt, limb_frac, cone_deg, az_deg):
+    """Built through the validating constructor (as a TOML file or the command line would)."""
+    from nuspacesim.config import NssConfig
+
+    r = requested(alt, limb_frac, cone_deg, az_deg)
+    sim = {"max_cherenkov_angle": r["max_cherenkov_angle"], "max_azimuth_angle": r["max_azimuth_angle"]}
+    if limb_frac is not None or np.radians(7) >= G.horizon_nadir_angle(G.R_ASTROPY, alt):
+        sim["angle_from_limb"] = r["angle_from_limb"]
+    return NssConfig(detector={"initial_position": {"altitude": r["altitude"], "latitude": 0.3, "longitude": 1.0}}, simulation=sim)
 
 
 def vectors(g, cfg, sign):
@@ -67,6 +74,7 @@ def shard(ctx, si, payload):
     for k, (alt, limb, cone, az) in enumerate(payload["cfgs"]):
         rng = ctx.subrng("c01", si, k)
         cfg = make_cfg(alt, limb, cone, az)
+        req = requested(alt, limb, cone, az)
         wit = {"altitude": alt, "limb_frac": limb, "cone_deg": cone, "az_deg": az}
         g = RegionGeom(cfg)
         P = payload["P"]
@@ -155,14 +163,14 @@ def shard(ctx, si, payload):
         ctx.count("region", 8)
         aH = G.horizon_nadir_angle(R, alt)
         lmax_ref = G.tangent_length(R, alt)
-        lmin_ref = G.los_length_at_nadir(R, alt, aH - cfg.simulation.angle_from_limb)
+        lmin_ref = G.los_length_at_nadir(R, alt, aH - req["angle_from_limb"])
         probs = []
-        if not (abs(g.thetaTrSubV[0]) <= 1e-12 and abs(g.thetaTrSubV[1] - cfg.simulation.max_cherenkov_angle) <= 1e-9):
-            probs.append(f"theta_TrV(u1=0,1) = {g.thetaTrSubV[0]!r}, {g.thetaTrSubV[1]!r} (cone {cfg.simulation.max_cherenkov_angle!r})")
+        if not (abs(g.thetaTrSubV[0]) <= 1e-12 and abs(g.thetaTrSubV[1] - req["max_cherenkov_angle"]) <= 1e-9):
+            probs.append(f"theta_TrV(u1=0,1) = {g.thetaTrSubV[0]!r}, {g.thetaTrSubV[1]!r} (cone {req['max_cherenkov_angle']!r})")
         if not (abs(g.phiTrSubV[2]) <= 1e-12 and abs(g.phiTrSubV[3] - 2 * np.pi) <= 1e-9):
             probs.append(f"phi_TrV(u2=0,1) = {g.phiTrSubV[2]!r}, {g.phiTrSubV[3]!r}")
-        if not (abs(g.phiS[5] - g.phiS[4] - cfg.simulation.max_azimuth_angle) <= 1e-9):
-            probs.append(f"phi_S range {g.phiS[5] - g.phiS[4]!r} (configured {cfg.simulation.max_azimuth_angle!r})")
+        if not (abs(g.phiS[5] - g.phiS[4] - req["max_azimuth_angle"]) <= 1e-9):
+            probs.append(f"phi_S range {g.phiS[5] - g.phiS[4]!r} (configured {req['max_azimuth_angle']!r})")
         if not (abs(g.losPathLen[6] - lmax_ref) <= 1e-3 * lmax_ref and abs(g.losPathLen[7] - lmin_ref) <= 1e-6 * lmin_ref + 1e-6 * (lmax_ref - lmin_ref)):
             probs.append(f"l(u4 -> 0, 1) = {g.losPathLen[6]!r}, {g.losPathLen[7]!r}; ray-sphere intersection gives horizon {lmax_ref!r}, minimum {lmin_ref!r}")
         if probs:
@@ -211,7 +219,7 @@ def shard(ctx, si, payload):
                     _, geo, _, _ = g.mcintegral(np.ones(nk2), -1.0, np.ones(nk2), 0.5, 1.0, 1.0)
                     ests.append(float(geo) * ((1 - CUT) if mode == "truncated" else 1.0))
                 Q, se = float(np.mean(ests)), float(np.std(ests, ddof=1) / np.sqrt(M))
-                Aref, Aerr = A.aperture(R, alt, float(g.minLOSpathLen), l_cut if mode == "truncated" else float(g.maxLOSpathLen), cfg.simulation.max_cherenkov_angle, cfg.simulation.max_azimuth_angle)
+                Aref, Aerr = A.aperture(R, alt, G.los_length_at_nadir(R, alt, G.horizon_nadir_angle(R, alt) - req["angle_from_limb"]), l_cut if mode == "truncated" else G.tangent_length(R, alt), req["max_cherenkov_angle"], req["max_azimuth_angle"])
                 floor = payload["quad_floor_trunc"] if mode == "truncated" else payload["quad_floor"]
                 tol = max(8 * se, floor * Aref) + 10 * Aerr
                 ctx.count("quadrature-" + mode)
@@ -221,7 +229,39 @@ def shard(ctx, si, payload):
                     ctx.violation("quadrature", f"altitude {alt} km, limb {limb}, cone {cone} deg, azimuth {az} deg [{mode}]: Sobol quadrature of the estimator gives {Q!r} +- {se:.3g} km^2 sr, independent aperture {Aref!r} (relative deviation {(Q-Aref)/Aref:.3e}, tolerance {tol/Aref:.1e})", dict(wit, mode=mode))
 
 
+def fullrun_shard(ctx, si, payload):
+    """The geometry-only integrals a full diffuse run reports (header RMCINTGO: every thrown
+    trajectory inside the configured cone; OMCINTGO: those whose effective Cherenkov cone holds the
+    detector) against the independent aperture, within the Monte Carlo scatter of N thrown."""
+    from .. import fullrun, inject
+
+    inject.require_safe()
+    R = G.R_ASTROPY
+    for alt, limb, cone, az, seed in payload["runs"]:
+        cfg = make_cfg(alt, limb, cone, az)
+        req = requested(alt, limb, cone, az)
+        cfg.simulation.thrown_events = payload["N"]
+        wit = {"altitude": alt, "limb_frac": limb, "cone_deg": cone, "az_deg": az, "seed": seed, "thrown": payload["N"]}
+        sim, log = fullrun.compute(cfg, seed=seed, scheduler="threads", num_workers=8, freeze=False)
+        if log.exception is not None or sim is None:
+            ctx.exception("raises", "compute() raised for a diffuse run with both channels", log.exception, wit)
+            continue
+        Aref, _ = A.aperture(R, alt, G.los_length_at_nadir(R, alt, G.horizon_nadir_angle(R, alt) - req["angle_from_limb"]), G.tangent_length(R, alt), req["max_cherenkov_angle"], req["max_azimuth_angle"])
+        rgo, ogo = float(sim.meta["RMCINTGO"][0]), float(sim.meta["OMCINTGO"][0])
+        ctx.count("fullrun-geo")
+        ctx.distinct.add(("fullrun", alt, limb, cone, az, seed))
+        ctx.obs.setdefault("fullrun_geo", []).append({"config": wit, "RMCINTGO_over_aperture": rgo / Aref, "OMCINTGO_over_aperture": ogo / Aref, "rows": len(sim)})
+        if not (abs(rgo / Aref - 1) <= payload["tol"] and ogo <= rgo * (1 + 1e-12)):
+            ctx.violation("fullrun-geo", f"altitude {alt} km, cone {cone} deg: a full diffuse run with both channels ({payload['N']} thrown, seed {seed}) reports RMCINTGO = {rgo!r} and OMCINTGO = {ogo!r} km^2 sr; the aperture of the configured region is {Aref!r} (ratio {rgo / Aref:.3f}, Monte Carlo tolerance {payload['tol']})", wit)
+
+
 def run(ctx):
+    sd = 100 * ctx.seed
+    fr = [(525.0, None, 3.0, 360.0, 11 + sd), (33.0, 0.5, 3.0, 360.0, 12 + sd)]
+    if ctx.thorough():
+        fr += [(525.0, None, 3.0, 360.0, 13 + sd), (1000.0, 0.3, 10.0, 90.0, 14 + sd), (33.0, 0.5, 3.0, 360.0, 15 + sd), (5.0, 0.5, 1.0, 360.0, 16 + sd)]
+    core.run_shards(ctx, "nssmon.checks.c01", "fullrun_shard", [{"runs": fr[i::2], "N": 600, "tol": 0.25} for i in range(2)], workers=2, timeout=ctx.pick(900, 3000))
+    ctx.require("fullrun-geo")
     rng = ctx.subrng("c01-main")
     alts = [1.0, 5.0, 33.0, 525.0, 1000.0, 36000.0]
     limbs = [None, 1e-3, 0.1, 0.5, 0.9, 0.999]
@@ -244,5 +284,5 @@ def run(ctx):
         ctx.require(m)
     return ctx.finish(
         rule="configurations: altitude {1,5,33,525,1000,36000} km and log-uniform, limb angle {default, 1e-3..0.999 of the horizon nadir angle}, cone {0.1,.5,3,20,60,89} deg, azimuth {1,90,360} deg; per configuration uniform interior points (u1,u4 in [.01,.99]) for the finite-difference identity (9 throws each), a one-hot subsample through the real mcintegral, region edge points and scrambled-Sobol quadratures; a case is a distinct (configuration, u) that is a kept event away from the 42 deg limit",
-        assumptions=["Earth radius = astropy R_earth", "finite-difference step 2e-5, identity tolerance 2e-5 relative (a wrong or missing factor changes the weight by >= 1e-3)", "quadrature: with u4 >= 0.02 (horizon tail removed, truncated annulus from the real throw) max(8 standard errors, 0.3 % [quick] / 0.1 % [thorough]); on the full cube only a coarse net, max(8 standard errors, 3 % / 1 %), because the estimator has log-divergent variance at the horizon", "scipy.integrate.quad for the reference aperture", "a defect confined to a set of points the workload never samples is invisible"],
+        assumptions=["Earth radius = astropy R_earth", "full runs: 600 thrown trajectories, observed scatter of RMCINTGO / aperture about 2 % (worst 6 % of 12), tolerance 25 % (the estimator's variance is log-divergent at the horizon)", "finite-difference step 2e-5, identity tolerance 2e-5 relative (a wrong or missing factor changes the weight by >= 1e-3)", "quadrature: with u4 >= 0.02 (horizon tail removed, truncated annulus from the real throw) max(8 standard errors, 0.3 % [quick] / 0.1 % [thorough]); on the full cube only a coarse net, max(8 standard errors, 3 % / 1 %), because the estimator has log-divergent variance at the horizon", "scipy.integrate.quad for the reference aperture", "a defect confined to a set of points the workload never samples is invisible"],
     )
